@@ -329,6 +329,11 @@ impl Shared {
 
     fn point(&self, tid: usize, site: &'static str) {
         let mut st = self.m.lock().unwrap();
+        if site == "alloc" && st.blocked_events > 40 && st.current == tid {
+            // the code under test allocates while holding a lock: every such point costs a supervisor
+            // round trip; after enough of them this run falls back to node granularity
+            return;
+        }
         if st.current != tid {
             // This thread had been given the baton, blocked in the kernel on a lock held by a parked
             // thread, was passed over, and has now been released: it parks here like everybody else.
@@ -612,7 +617,7 @@ pub fn execute(spec: &RunSpec, chooser: Chooser, pool: Arc<dyn Pool + Send + Syn
             let mut last_steps = st.steps;
             drop(st);
             // Supervisor. poll() with a relative, kernel-measured timeout: no clock is read.
-            let tick_ms = 15;
+            let tick_ms = 2;
             let mut idle_ticks: u64 = 0;
             let mut asleep_ticks: u64 = 0;
             loop {
